@@ -1,1 +1,75 @@
-// placeholder
+//! Valve master server reference model (Valve wiki "Master Server Query Protocol").
+
+use crate::vnet::{ConnInfo, Responder};
+use std::net::Ipv4Addr;
+
+pub type Entry = (Ipv4Addr, u16);
+
+pub const TERMINATOR: Entry = (Ipv4Addr::new(0, 0, 0, 0), 0);
+
+pub fn page_datagram(entries: &[Entry]) -> Vec<u8> {
+    let mut b = vec![0xFF, 0xFF, 0xFF, 0xFF, 0x66, 0x0A];
+    for (ip, port) in entries {
+        b.extend_from_slice(&ip.octets());
+        b.extend_from_slice(&port.to_be_bytes());
+    }
+    b
+}
+
+/// Parsed master-server request.
+#[derive(Clone, Debug, PartialEq)]
+pub struct MasterRequest {
+    pub region: u8,
+    pub seed: String,
+    pub filter: Vec<u8>,
+}
+
+pub fn parse_request(data: &[u8]) -> Result<MasterRequest, String> {
+    if data.first() != Some(&0x31) {
+        return Err("request does not start with '1'".into());
+    }
+    let region = *data.get(1).ok_or("no region byte")?;
+    let rest = &data[2 ..];
+    let z = rest.iter().position(|b| *b == 0).ok_or("seed address not NUL-terminated")?;
+    let seed = String::from_utf8(rest[.. z].to_vec()).map_err(|e| e.to_string())?;
+    let rest = &rest[z + 1 ..];
+    let z2 = rest.iter().position(|b| *b == 0).ok_or("filter not NUL-terminated")?;
+    if z2 + 1 != rest.len() {
+        return Err(format!("{} trailing bytes after the filter terminator", rest.len() - z2 - 1));
+    }
+    Ok(MasterRequest {
+        region,
+        seed,
+        filter: rest[.. z2].to_vec(),
+    })
+}
+
+/// Serves a fixed sequence of pages: request i gets page i (silent afterwards).
+pub struct MasterServer {
+    pub pages: Vec<Vec<Entry>>,
+    pub served: usize,
+    pub requests: Vec<Vec<u8>>,
+}
+
+impl MasterServer {
+    pub fn new(pages: Vec<Vec<Entry>>) -> Self {
+        Self {
+            pages,
+            served: 0,
+            requests: Vec::new(),
+        }
+    }
+}
+
+impl Responder for MasterServer {
+    fn on_datagram(&mut self, _c: &ConnInfo, data: &[u8]) -> Vec<Vec<u8>> {
+        self.requests.push(data.to_vec());
+        if self.served < self.pages.len() {
+            let p = page_datagram(&self.pages[self.served]);
+            self.served += 1;
+            vec![p]
+        } else {
+            vec![]
+        }
+    }
+}
